@@ -66,7 +66,8 @@ CFG = {
         dict(test="^TestC10Boundary$", checks=(60, 3000)),
         dict(test="^TestC10Constructors$", checks=(1, 1)),
         dict(test="^TestC10MemoryKinds$", checks=(60, 3000)),
-        dict(test="^TestC10RunSnapshot$", checks=(200, 8000))]),
+        dict(test="^TestC10RunSnapshot$", checks=(200, 8000)),
+        dict(test="^TestC10RunConcurrent$", checks=(30, 1500))]),
     "C11": dict(pkg="core", test="^TestC11$", shards=(8, 16), checks=(8000, 60000)),
     "C12": dict(pkg="total", test="^TestC12$", shards=(8, 16), checks=(45000, 1500000),
                 fuzz=dict(pkg="total", target="^FuzzTotal$", seconds=(0, 300))),
